@@ -49,7 +49,7 @@ META = {
         "tokens render every child once; (d) children are rendered inside current_node_context of an empty element built by the handler; (e) a value stored in the node built "
         "for one child is assigned on every path of that iteration (no stale value of an earlier child); (f) the handlers of the leaf types the property names "
         "(text, inline code, code block, fence, math, raw HTML, image, thematic break) add something to the node being filled on every normal path (an empty token.content excepted); "
-        "(g) nothing in the render scope removes nodes from a tree handed in by the caller or from the renderer's own nodes, unless the name was rebound to a deepcopy on every path; "
+        "(g) nothing in the render scope removes nodes from a tree handed in by the caller or from the renderer's own nodes, unless the name was rebound to a deepcopy on every path, or the removal is a relocation of system_message nodes (each removed node re-inserted exactly once); "
         "(h) the message node handed to note_explicit_target / note_implicit_target is not the target node itself when that node can be a text element or image (classes from constructors, call sites of node parameters, isinstance guards); "
         "(j) where a block container handler drops the token's children under a reported condition (duplicate footnote definition ...), the condition inspects the token's data (label, content, attributes) as markdown-it produced it, not a normalised copy; "
         "(i) a node that gets a refname carries a rawsource (docutils' DanglingReferences transform, read from its source, replaces an unresolved reference by problematic(rawsource)). "
@@ -1049,8 +1049,8 @@ class Nesting:
                         w += 1
                     continue
                 d = dotted(f) or ""
-                if d in BENIGN_CALLEES or d.split(".")[-1] in ("deepcopy", "copy") or (isinstance(f, ast.Attribute) and f.attr.startswith("note_")):
-                    continue
+                if d in BENIGN_CALLEES or d.split(".")[-1] in ("deepcopy", "copy") or (isinstance(f, ast.Attribute) and (f.attr.startswith("note_") or f.attr in ("index", "count", "remove", "first_child_matching_class", "first_child_not_matching_class"))):
+                    continue  # copies, registrations and pure lookups (list.index / Element.index ...) leave the tree as it is
                 m = self.resolve_callee(c, fi)
                 if m is None:
                     raise Unsupported(f"{fi.qualname}: node `{name}` is handed to `{short(c, 60)}`, whose effect on the tree is unknown")
@@ -1750,7 +1750,9 @@ def r2_nesting_discipline(corpus: Corpus, rep: Report, tier: str):
             for fi, op, root, why in _live_tree_removals(corpus, an):
                 k = f"{fi.fq}|{short(op, 50)} works on a copy"
                 if why:
-                    rep.violation("C02.R2", k, fi.module.site(op), f"`{short(op, 50)}` removes nodes from `{root}`, {why}: nodes that were rendered into the doctree disappear from it again")
+                    rep.violation("C02.R2", k, fi.module.site(op), f"`{short(op, 50)}` removes nodes from `{root}`, {why}" + ("" if why.startswith("and ") else ": nodes that were rendered into the doctree disappear from it again"))
+                elif id(op) in getattr(_live_tree_removals, "relocations", set()):
+                    rep.ok("C02.R2", k, fi.module.site(op), "a relocation: each removed system_message is re-inserted exactly once; no content node is moved")
                 else:
                     rep.ok("C02.R2", k, fi.module.site(op), f"`{root}` is a private copy on every path to the removal")
         if klass.fq == base_ci.fq:
@@ -1804,6 +1806,8 @@ def _live_tree_removals(corpus: Corpus, an: Nesting):
                     funcs[m.fq] = m
                     work.append(m)
     out = []
+    relocations: set[int] = set()
+    _live_tree_removals.relocations = relocations  # type: ignore[attr-defined]
     for f in sorted(funcs.values(), key=lambda f: f.fq):
         a = f.node.args
         node_params = {p.arg for p in a.posonlyargs + a.args + a.kwonlyargs if p.annotation is not None and "nodes." in unparse(p.annotation)}
@@ -1855,6 +1859,37 @@ def _live_tree_removals(corpus: Corpus, an: Nesting):
             if r is None:
                 continue
             root, read_at = r
+            # a removal that is followed, on every path of the same iteration, by exactly one re-insertion of the same node
+            # is a relocation; it is harmless for the content if only system_message nodes are moved
+            moved = op.args[0].id if isinstance(op, ast.Call) and op.func.attr == "remove" and len(op.args) == 1 and isinstance(op.args[0], ast.Name) else None
+            if moved is not None:
+                res = an.track(f, cfg.stmt_of(op), moved)
+                counts = set()
+                for v in res.values():
+                    counts |= v
+                only_messages = False
+                for n in f.local_nodes():
+                    if isinstance(n, ast.For) and isinstance(n.target, ast.Name) and n.target.id == moved:
+                        it = n.iter
+                        while isinstance(it, ast.Call) and dotted(it.func) in ("list", "tuple", "reversed") and it.args:
+                            it = it.args[0]
+                        if isinstance(it, ast.Call) and it.args:
+                            cls = {(dotted(a) or "").split(".")[-1] for a in it.args}
+                            only_messages = bool(cls) and cls <= {"system_message"}
+                if counts and counts != {0}:
+                    if counts == {1} and only_messages:
+                        out.append((f, op, root, ""))
+                        relocations.add(id(op))
+                        continue
+                    if 2 in counts:
+                        out.append((f, op, root, f"and re-inserts `{moved}` more than once on some path: the same node object appears twice in the tree"))
+                        continue
+                    if 0 in counts:
+                        out.append((f, op, root, f"and re-inserts `{moved}` only on some paths: on the others the node is lost"))
+                        continue
+                    if not only_messages:
+                        out.append((f, op, root, f"and re-inserts `{moved}` elsewhere although it is not known to be a system_message: content is moved out of its container / out of source order"))
+                        continue
             if root.startswith("self."):
                 out.append((f, op, root, "the renderer's own live node"))
                 continue
@@ -4964,6 +4999,21 @@ def mutants(corpus: Corpus):
         add("c02-footnote-duplicate-test-stripped", "C02.R2", base, cmpn.left, f"{lab}.strip()", "compared as it is")
     else:
         out.append(("c02-footnote-duplicate-test-*", "membership test of the label not found"))
+
+    # class: the helper that moves system messages behind a rubric / list loses or duplicates them
+    try:
+        f = base.func(R + "_messages_follow")
+    except AnchorMissing:
+        f = None
+    ins = find_node(f, lambda n: isinstance(n, ast.Expr) and isinstance(n.value, ast.Call) and isinstance(n.value.func, ast.Attribute) and n.value.func.attr == "insert") if f is not None else None
+    if ins is not None:
+        ind = indent_of(f, ins)
+        add("c02-moved-message-not-reinserted", "C02.R2", base, ins, "pass", "works on a copy")
+        add("c02-moved-message-inserted-twice", "C02.R2", base, ins, _seg(base, ins) + f"\n{ind}" + _seg(base, ins), "works on a copy")
+        flt = find_node(f, lambda n: isinstance(n, ast.Attribute) and unparse(n) == "nodes.system_message")
+        add("c02-content-moved-out-of-container", "C02.R2", base, flt, "nodes.Text", "works on a copy")
+    else:
+        out.append(("c02-moved-message-*", "_messages_follow / its insert not found"))
 
     # ---- R4
     f = base.func(R + "render_paragraph")
